@@ -122,6 +122,8 @@ def replay (j : Json) : R Verdict := do
       -- C08: without a guess the first individual is the init values written in the document
       match decValue (fieldD imp "init") with
       | .ok iv =>
+        if !conf e iv then
+          pf := ("C01", s!"the initial value of the accepted document does not conform to the parameter space written in it: the first candidate of the run has the wrong structure") :: pf
         if iv != initialValue e then
           pf := ("C08", s!"the initial value of the accepted document ({(fieldD imp "init").compress}) is not the init values written in it: the first individual would not be the spec's init values") :: pf
       | .error _ => pure ()
